@@ -13,6 +13,7 @@ from __future__ import annotations
 
 import copy
 import io
+import pathlib
 
 import numpy as np
 
@@ -299,6 +300,7 @@ def execute(program: dict) -> dict:
         if bystander is not None:
             bystander.comments.append("bystander note, not a comment of the written tree")
             world.log("bystander_edit")
+        text_so_far = ""
         for gi, gen in enumerate(program["gens"]):
             wr = gen["write"]
             ab = gen.get("aborted")
@@ -336,7 +338,9 @@ def execute(program: dict) -> dict:
             try:
                 if wr["target"] == "path":
                     world.write_plans[rel] = StreamPlan.from_json(wr.get("wstream"))
-                    ret = tree.to_swc(world.path(rel), **kwargs)
+                    # the path as a str or, in a third of the writes, as a pathlib.Path (any os.PathLike)
+                    target = world.path(rel) if (gi + len(text_so_far)) % 3 else pathlib.Path(world.path(rel))
+                    ret = tree.to_swc(target, **kwargs)
                     data = world.get(rel)
                     if ret is not None:
                         violation = {"tag": "write_result", "detail": "to_swc(fname) returned a value"}
@@ -359,7 +363,7 @@ def execute(program: dict) -> dict:
                 src_kind = rd["source"]
                 if src_kind == "path":
                     world.read_plans[rel] = plan
-                    src = world.path(rel)
+                    src = world.path(rel) if (gi + ri) % 3 else pathlib.Path(world.path(rel))
                 else:
                     src = open_stream(world, src_kind, text, data, plan, rd.get("preamble"))
                 try:
